@@ -700,7 +700,8 @@ def check_pass(res, ctx, prop, rng):
                 elif "Rendering" not in se or so != "":
                     mm.append({"kind": "other", "what": "-d with a blocked name: stderr %r stdout %r" % (se[-200:], so[-100:])})
                 for m_ in mm[:3]:
-                    report(m_, replay)
+                    # a run that fails by construction: a difference here is about the ORDER of the writes
+                    report(dict(m_, kind="other"), replay)
             else:
                 _, idx, k, full, costs, real, so, rj = j
                 r = rs[k]
